@@ -135,7 +135,8 @@ Record fixes := {
   fx77 : bool;    (* register_term_frequency_lookup evicts a Splink-computed concat_with_tf *)
   fx716 : bool;   (* estimate_u computes its blocked pairs with use_cache=False *)
   fx715 : bool;   (* realtime compare_records tracks the table created on the cached-SQL path (C18) *)
-  fx718 : bool    (* register_term_frequency_lookup(overwrite=True) over an existing lookup drops the derived tables *)
+  fx718 : bool;   (* register_term_frequency_lookup(overwrite=True) over an existing lookup drops the derived tables *)
+  fxba : bool     (* blocking analysis (row counts, cumulative comparisons, n_largest_blocks) runs with use_cache=False *)
 }.
 
 Inductive event :=
@@ -629,8 +630,9 @@ Section Hash.
     | BlockingCumulative =>
         [ IFreshUid; IExec TOTAL (200 + fsalt s) [RConcatInline] [] true; IDrop 0;
           IExec TOTAL (201 + fsalt s) [RConcatInline] [] true; IDrop 1;
-          IExec DFCOUNT (fsalt s) [RConcatInline] [] true; IExec CUM (300 + fsalt s) [RBlockedInline (300 + fsalt s)] [] true ]
-    | BlockingLargest rule => [ IFreshUid; IExec BLOCKCOUNTS (rule + fsalt s) [RConcatInline] [] true ]
+          IExec DFCOUNT (fsalt s) [RConcatInline] [] (negb (fxba (st_fix s)));
+          IExec CUM (300 + fsalt s) [RBlockedInline (300 + fsalt s)] [] (negb (fxba (st_fix s))) ]
+    | BlockingLargest rule => [ IFreshUid; IExec BLOCKCOUNTS (rule + fsalt s) [RConcatInline] [] (negb (fxba (st_fix s))) ]
     | ClusterMulti =>
         predict_prog s ++ [ IFreshUid; IExec CAAT (1000 + st_ctr s) [RReg 2; RInputsRaw] [] true ]
     | GraphMetrics thr =>
@@ -665,8 +667,8 @@ Section Hash.
                 ["__splink__count_comparisons_from_blocking_l"; "__splink__count_comparisons_from_blocking_r";
                  "__splink__block_counts"] true;
           IDrop 0;
-          IExec DFCOUNT 0 [RConcatInline] [] true;
-          IExec CUM rule [RBlockedInline (100 + rule)] [] true;
+          IExec DFCOUNT 0 [RConcatInline] [] (negb (fxba (st_fix s)));
+          IExec CUM rule [RBlockedInline (100 + rule)] [] (negb (fxba (st_fix s)));
           ISetParams p' ]
     | ComputeTF c => [ INamedOrExec (tfname c) 0 [RConcat] [] ]
     | RegisterTF c ver => [ IRegisterTF c ver ]
